@@ -56,7 +56,9 @@ TEXT = {
         'level': 'Proof obligations on MIR built without debug assertions (and with them): every slot write is '
                  'either a compiler-checked index or has its bound discharged (O1); at the unwinding exit caused by '
                  'the failing bounds check every container satisfies the safe-to-drop invariant with len unchanged '
-                 '(ESC-own); len <= N is inductive (CAP).',
+                 '(ESC-own); len <= N is inductive (CAP); an insertion returns normally with a new entry only '
+                 'when len < N held, the last free slot is usable (some accepted append is consistent with len == N-1), '
+                 'and a bulk constructor never drops a pulled item silently.',
         'note': BASE + '; panic=abort profiles and sanitizer observations are out of scope',
     },
     'C04': {
@@ -173,8 +175,9 @@ TEXT.update({
         'level': 'Partial (level other). Difference/DifferenceRef/Intersection: next() yields a reference to an element '
                  'of the LEFT operand only after that element was looked up in the right operand with the required '
                  'outcome (complete miss / hit), skips only elements with the opposite outcome, and leaves the cursor '
-                 'right behind the yielded element; fold() passes exactly those elements to the closure, once each '
-                 '(sibling agreement with next); size_hint is evaluated symbolically as an affine expression and must '
+                 'right behind the yielded element; fold() passes exactly those elements to the closure, once each, front to back '
+                 '(sibling agreement with next); count() (when overridden) must equal the number of kept elements -- decided with '
+                 'a ghost counter per loop; size_hint is evaluated symbolically as an affine expression and must '
                  'satisfy lower <= max(0, remaining - other.len()) resp. 0, upper >= remaining resp. '
                  'min(remaining, other.len()); union()/symmetric_difference() must be the stated chain of parts over '
                  'the full prefixes; Union/SymmetricDifference next/size_hint/fold/count are decided element-wise over '
@@ -243,7 +246,8 @@ TEXT.update({
         'technique': 'abstract interpretation of MIR: per-element clone schema and result schema of Map::clone / Set::clone',
         'level': 'Partial (level other). The clone is a fresh container built inside the call (no shared storage is '
                  'possible by type), has the length of the original, each loop iteration clones the key and the value '
-                 'of one source slot exactly once and writes them to the slot with the same index, and the original is '
+                 'of one source slot exactly once and writes them to the slot with the same index, nothing is cloned '
+                 'into slots beyond len and no slot below len stays unwritten, and the original is '
                  'not modified. That the clone compares equal follows from a lawful Clone/Eq (not decided).',
         'note': BASE + '; the tuple CloneShim calls K::clone and V::clone once each (compiler generated)',
     },
@@ -262,7 +266,8 @@ TEXT.update({
         'technique': 'abstract interpretation of the MIR of the serde feature build: serializer/visitor call discipline and error propagation',
         'level': 'Partial (level other; configuration --features serde). Serialize: the serializer is told Some(len()) '
                  'exactly once, exactly one entry/element consisting of the key (and value) of one stored slot is '
-                 'emitted per element of the full prefix, every serializer error is propagated, the result is that of '
+                 'emitted per element of the full prefix, every serializer error is propagated (the loop goes on only '
+                 'after the call result was examined and found Ok), the result is that of '
                  'end(). Visitor: builds from new(), one key-keeping insert per entry pulled, returns Ok only after the '
                  'source itself reported the end, propagates access errors, refuses input by itself only when the '
                  'announced length provably exceeds N. Deserialize hands the visitor over once. NOT decided: equality '
